@@ -25,7 +25,7 @@ Qed.
    changes nothing but the ghost record of the presented certificate, and emits no cookie *)
 Theorem c05_no_cross_user : forall d w ops cert fault o u u',
   let s := fst (run (fixed d w) init ops) in
-  about s o = Some u -> requester (fixed d w) s cert o = Some u' -> u <> u' ->
+  about (fixed d w) s o = Some u -> requester (fixed d w) s cert o = Some u' -> u <> u' ->
   step (fixed d w) s (Req cert fault o) = (present_cert s cert, None).
 Proof.
   intros d w ops cert fault o u u' s Ha Hr Hne. cbn [step].
@@ -53,7 +53,7 @@ Qed.
 (* expired values never work, in any state, however the request is authenticated *)
 Theorem c05_expired : forall d w cert fault s o,
   expired (fixed d w) s cert o = true -> step_req (fixed d w) cert fault s o = (s, None).
-Proof. intros d w cert fault s o. apply expired_refused. reflexivity. Qed.
+Proof. intros d w cert fault s o. apply expired_refused; reflexivity. Qed.
 
 (* an expired session cookie never works: whatever else is attached, if the cookie checkAuth looks at
    (the last one) is past its exp claim, a request without client certificate changes nothing *)
@@ -79,6 +79,13 @@ Theorem c05_old_challenge_refuted :
   ~ NoDup (spent (fst (run (cfg_with true true true false) init w_chal_twice))) /\
   NoDup (spent (fst (run (cfg_with true true true true) init w_chal_twice))).
 Proof. exact old_challenge. Qed.
+
+(* a push transaction lives two minutes (ExpiresAt); only the cleanup sweep enforced that, so an
+   approved push polled five minutes after its start still raised the level *)
+Theorem c05_old_vip_expiry_refuted :
+  nth 4 (snd (run (cfg_vip_expiry false) init w_vip_exp)) None <> None /\
+  nth 4 (snd (run (cfg_vip_expiry true) init w_vip_exp)) None = None.
+Proof. exact old_vip_expiry. Qed.
 
 (* updateAuthCookieAuthlevel as it was: [Login bob; IssueOtp alice; Bootstrap authenticated by
    alice's client certificate with her own OTP and bob's cookie attached] gives bob's session the
